@@ -2,7 +2,7 @@
    Known finding K1 (KNOWN_FINDINGS.txt): the decoder keeps only the LAST subscription identifier of a
    PUBLISH (pub_subid = plast 11), so a PUBLISH carrying two or more identifiers reaches one stream
    only; the theorems below are about the identifier the context dispatches on. *)
-From Poster Require Import Model.Client Proofs.ClientP Proofs.HandshakeP.
+From Poster Require Import Model.Client Proofs.ClientP Proofs.HandshakeP Proofs.StreamP.
 
 (* dispatch: the packet value itself (topic, payload, QoS, flags, properties untouched) is appended
    to the buffer of the stream registered under the identifier; no other stream changes; the
@@ -44,3 +44,30 @@ Print Assumptions C07_registered_on_send.
 Example C07_K1_witness :
   pub_subid (mkrx KPublish false false false 0 0 0 [(11, VV 1 1); (11, VV 2 1)] [97] [65] []) = Some 2.
 Proof. reflexivity. Qed.
+
+(* ---- every sequence of inbound packets ---------------------------------------------------------------------
+   `spec_deliveries aw sid ps` (Proofs/StreamP.v, written from C07/C09) = the PUBLISH packets of ps that carry
+   subscription identifier sid and are not QoS 2 re-deliveries, in arrival order.  From ANY state in which the
+   stream of sid is registered and its receiver alive, after ANY sequence ps of inbound packets (other
+   subscriptions' messages, acknowledgements, messages for dropped or unknown streams, PUBRELs - anything),
+   the stream's buffer has grown by exactly those packets: unchanged, in order, each exactly once; the
+   stream stays registered (nothing ends it) and no other identifier ever maps to it. *)
+Theorem C07_history : forall (ps : list rxpkt) (s : sys) (sid j : N) (st : strm),
+  stream_state s sid j st -> sub_inj s sid j -> wbudget s = None ->
+  let s' := take_packets s ps in
+  stream_state s' sid j (mkst (st_buf st ++ spec_deliveries (await_rel (c s)) sid ps) (st_sender st) true (st_taken st)) /\
+  await_rel (c s') = fold_left spec_aw_step ps (await_rel (c s)).
+Proof. exact stream_history. Qed.
+Print Assumptions C07_history.
+
+Example C07_nonvacuous :
+  let pk q pid sid pl := mkrx KPublish false false false q pid 0 [(11, VV sid 1)] [116] pl [] in
+  let s := set_streams (set_c sys_init (mkctx [] [(1, 10); (2, 20)] [] [] 5 5 None 0 None))
+                       [(10, mkst [] true true true); (20, mkst [] true false true)] in
+  stream_state s 1 10 (mkst [] true true true) /\ sub_inj s 1 10 /\
+  spec_deliveries [] 1 [pk 0 0 1 [1]; pk 1 5 2 [2]; pk 2 6 1 [3]; pk 2 6 1 [3]; pk 0 0 9 [4]; pk 1 7 1 [5]]
+    = [pk 0 0 1 [1]; pk 2 6 1 [3]; pk 1 7 1 [5]].
+Proof.
+  cbv zeta. split; [repeat split|]. split; [|vm_compute; reflexivity].
+  intros a b Hin Hb. cbn in Hin. destruct Hin as [H|[H|[]]]; inversion H; subst; [reflexivity|discriminate].
+Qed.
